@@ -13,6 +13,14 @@ pick validation in `doPartition` (pkg/kgo/producer.go).  Core Lean only (linked 
 -- models: pkg/kgo/partitioner.go:leastBackupTopicPartitioner.PartitionByBackup
 -- models: pkg/kgo/partitioner.go:leastBackupTopicPartitioner.OnNewBatch
 -- models: pkg/kgo/partitioner.go:uniformBytesTopicPartitioner.PartitionByBackup
+-- models: pkg/kgo/partitioner.go:basicTopicPartitioner.Partition
+-- models: pkg/kgo/partitioner.go:ManualPartitioner
+-- models: pkg/kgo/partitioner.go:basicTopicPartitioner.RequiresConsistency
+-- models: pkg/kgo/partitioner.go:roundRobinTopicPartitioner.RequiresConsistency
+-- models: pkg/kgo/partitioner.go:stickyTopicPartitioner.RequiresConsistency
+-- models: pkg/kgo/partitioner.go:stickyKeyTopicPartitioner.RequiresConsistency
+-- models: pkg/kgo/partitioner.go:leastBackupTopicPartitioner.RequiresConsistency
+-- models: pkg/kgo/partitioner.go:uniformBytesTopicPartitioner.RequiresConsistency
 -- models: pkg/kgo/producer.go:Client.doPartition
 
 Conventions: Go `uint32` is `BitVec 32`; Go `int` (64 bit) is `Int` (the inputs are kept inside the
@@ -216,6 +224,8 @@ structure Rec where
   key : Option (List UInt8)
   valueLen : Nat
   headers : List (Nat × Nat)
+  /-- `r.Partition` (read by `ManualPartitioner` only). -/
+  partition : Int := 0
 deriving Repr
 
 def Rec.keyLen (r : Rec) : Int := match r.key with | some k => k.length | none => 0
@@ -290,12 +300,22 @@ inductive PKind where
   | stickyKey (hasher : Hasher)
   | leastBackup
   | uniformBytes (cfg : UBCfg)
+  /-- `BasicConsistentPartitioner(fn)`: `basicTopicPartitioner.Partition(r, n) = fn(r, n)`; `none` = `fn` panics. -/
+  | basic (fn : Rec → Int → Option Int)
+
+/-- `ManualPartitioner()`: `BasicConsistentPartitioner` over `func(r, _) int { return int(r.Partition) }`. -/
+def PKind.manual : PKind := .basic (fun r _ => some r.partition)
+
+/-- `BasicConsistentPartitioner` over `func(r, n) int { return hasher(r.Key, n) }` (a nil key hashes as the
+empty slice): how a Sarama-compatible "hash every record" partitioner is written with this API. -/
+def PKind.basicHash (hasher : Hasher) : PKind := .basic (fun r n => hasher (r.key.getD []) n)
 
 inductive PState where
   | rr (s : RR)
   | st (s : Sticky)
   | lb (s : LB)
   | ub (s : UB)
+  | unit          -- `basicTopicPartitioner` has no state
 deriving Repr
 
 def PKind.init : PKind → PState
@@ -304,6 +324,7 @@ def PKind.init : PKind → PState
   | .stickyKey _ => .st {}
   | .leastBackup => .lb {}
   | .uniformBytes _ => .ub {}
+  | .basic _ => .unit
 
 /-- An operation on a topic partitioner: `Partition(r, n)` / `PartitionByBackup(r, n, iter over mapping)`
 with the random draws it may consume, or `OnNewBatch`.  `doPartition` passes `n = len(mapping)`. -/
@@ -322,6 +343,7 @@ def PKind.partitionN (k : PKind) (s : PState) (r : Rec) (n : Int) (it : Iter) (d
   | .leastBackup, .lb s => match s.partitionByBackup n it draws with | .ok s p => .ok (.lb s) p | .panic => .panic
   | .uniformBytes c, .ub s =>
     match s.partitionByBackup c r n it (draws.headD 0) with | .ok s p => .ok (.ub s) p | .panic => .panic
+  | .basic f, .unit => match f r n with | some p => .ok .unit p | none => .panic
   | _, _ => .panic    -- state of another partitioner kind: never constructed
 
 /-- `OnNewBatch` where the type implements it (sticky, sticky key, least backup); otherwise nothing. -/
@@ -374,6 +396,7 @@ def PKind.acceptN (k : PKind) (s : PState) (r : Rec) (n : Int) (mapping : List I
     | none => (s.accept n p).map .st
   | .leastBackup, .lb s => (s.accept n mapping p).map .lb
   | .uniformBytes c, .ub s => (s.accept c r n mapping p).map .ub
+  | .basic f, .unit => if f r n = some p then some .unit else none
   | _, _ => none
 
 def PKind.usesBackup : PKind → Bool
@@ -404,5 +427,127 @@ def PKind.run (k : PKind) : PState → List Op → Option (List (Option (List UI
     match k.partitionN s r n (Iter.ofMapping mapping) draws with
     | .panic => none
     | .ok s' p => (k.run s' ops).map ((k.obsKey r, n, p) :: ·)
+
+/-! ## `RequiresConsistency` of every built-in topic partitioner -/
+
+/-- `TopicPartitioner.RequiresConsistency(r)`, per concrete type. -/
+def PKind.requiresConsistency : PKind → Rec → Bool
+  | .roundRobin, _ => false                          -- `return false`
+  | .sticky, _ => false                              -- `return false`
+  | .stickyKey _, r => r.key.isSome                  -- `return r.Key != nil`
+  | .leastBackup, _ => false                         -- `return false`
+  | .uniformBytes c, r => c.keys && r.key.isSome     -- `return p.u.keys && r.Key != nil`
+  | .basic _, _ => true                              -- `return true` (BasicConsistent, Manual)
+
+def PKind.isBasic : PKind → Bool
+  | .basic _ => true
+  | _ => false
+
+/-- `_, ok := tp.(TopicPartitionerOnNewBatch)`: sticky, sticky key (embeds sticky), least backup. -/
+def PKind.hasOnNewBatch : PKind → Bool
+  | .sticky => true
+  | .stickyKey _ => true
+  | .leastBackup => true
+  | _ => false
+
+/-- The same partitioner configured with another key hasher (partitioners without a hasher are unchanged). -/
+def PKind.withHasher : PKind → Hasher → PKind
+  | .stickyKey _, h => .stickyKey h
+  | .uniformBytes c, h => .uniformBytes { c with hasher := h }
+  | k, _ => k
+
+/-! ## the client around the partitioner: `Client.doPartition` (pkg/kgo/producer.go)
+
+`topicPartitionsData` is read through three fields: `loadErr`, `partitions` ("partition num => partition")
+and `writablePartitions` ("subset of above": the partitions without a load error, i.e. with a leader).
+A `*topicPartition` is represented by what `doPartition` and the partitioners read from it. -/
+
+/-- What `partition.records.bufferRecord(pr, abortOnNewBatch)` does with *this* record, abstracted to what
+`doPartition` reads back (`processed`). -/
+inductive Room where
+  /-- appended to the open batch: processed. -/
+  | fits
+  /-- no open batch with room, fits a new one: *not processed* when `abortOnNewBatch`, appended otherwise. -/
+  | newBatch
+  /-- processed as a failure by the buffer itself (purged, client closing, larger than any batch). -/
+  | never
+deriving Repr, DecidableEq
+
+structure Part where
+  /-- `records.partition`: the partition number. -/
+  num : Nat
+  /-- `records.buffered.Load()` (what `leastBackupInput.Next` reports). -/
+  buffered : Int
+  room : Room
+deriving Repr, DecidableEq
+
+structure TopicData where
+  /-- `partsData.loadErr != nil && !kerr.IsRetriable(partsData.loadErr)` -/
+  fatalLoadErr : Bool
+  partitions : List Part
+  writable : List Part
+deriving Repr
+
+/-- `mapping := partsData.writablePartitions; if RequiresConsistency(r) { mapping = partsData.partitions }
+else if len(mapping) == 0 && len(partsData.partitions) > 0 { mapping = partsData.partitions }` -/
+def PKind.mappingOf (k : PKind) (r : Rec) (t : TopicData) : List Part :=
+  if k.requiresConsistency r then t.partitions
+  else if t.writable.length = 0 ∧ t.partitions.length > 0 then t.partitions
+  else t.writable
+
+inductive Pick where
+  | panic
+  | invalid (pick : Int) (len : Nat)
+  | ok (s : PState) (part : Part)
+deriving Repr
+
+/-- `tlp, _ := partitioner.(TopicBackupPartitioner); if tlp != nil { lb.mapping = mapping; pick =
+tlp.PartitionByBackup(r, len(mapping), lb) } else { pick = partitioner.Partition(r, len(mapping)) };
+if pick < 0 || pick >= len(mapping) { fail }; partition := mapping[pick]`.
+(`partitionN` is `PartitionByBackup` over the iterator for exactly the types that implement it.) -/
+def PKind.pickFrom (k : PKind) (s : PState) (r : Rec) (mapping : List Part) (draws : List Nat) : Pick :=
+  match k.partitionN s r mapping.length (Iter.ofMapping (mapping.map (·.buffered))) draws with
+  | .panic => .panic
+  | .ok s' pick =>
+    if doPartitionRejects pick mapping.length then .invalid pick mapping.length
+    else
+      match mapping[pick.toNat]? with
+      | none => .panic                -- `mapping[pick]` out of range (excluded by the check: theorem)
+      | some part => .ok s' part
+
+/-- What happened to the record. -/
+inductive Sel where
+  /-- `promiseRecord(pr, partsData.loadErr)` -/
+  | failLoadErr
+  /-- "unable to partition record due to no usable partitions" -/
+  | failNoUsable
+  /-- "invalid record partitioning choice of %d from %d available" -/
+  | failInvalid (pick : Int) (len : Nat)
+  | panic
+  /-- handed to `part`'s record buffer (`pr.Partition = part.num`); `repicked`: after `OnNewBatch`. -/
+  | placed (s : PState) (part : Part) (repicked : Bool)
+deriving Repr
+
+/-- `Client.doPartition(parts, partsData, pr)` for a topic partitioner of kind `k` in state `s`.
+`draws₁` / `draws₂` feed the random source of the first / the second (post-`OnNewBatch`) pick. -/
+def PKind.doPartition (k : PKind) (s : PState) (t : TopicData) (r : Rec) (draws₁ draws₂ : List Nat) : Sel :=
+  if t.fatalLoadErr then .failLoadErr else
+  let mapping := k.mappingOf r t
+  if mapping.length = 0 then .failNoUsable else
+  match k.pickFrom s r mapping draws₁ with
+  | .panic => .panic
+  | .invalid p l => .failInvalid p l
+  | .ok s₁ part =>
+    -- `processed := partition.records.bufferRecord(pr, abortOnNewBatch)`; `if !processed { … }`
+    if k.hasOnNewBatch ∧ part.room = .newBatch then
+      match k.pickFrom (k.onNewBatch s₁) r mapping draws₂ with     -- `onNewBatch.OnNewBatch()`, pick again
+      | .panic => .panic
+      | .invalid p l => .failInvalid p l
+      | .ok s₂ part₂ => .placed s₂ part₂ true                       -- `bufferRecord(pr, false)`
+    else .placed s₁ part false
+
+def Sel.part? : Sel → Option Part
+  | .placed _ p _ => some p
+  | _ => none
 
 end Model.C28
